@@ -132,6 +132,44 @@ def ts_value(r):
                              u.second, u.weekday(), yday, isdst))
 
 
+# values that compare (and hash) equal in Python but have different wire
+# forms: anything keyed on the value - a cache, a dict, a set - confuses them
+def confusable_groups():
+    import decimal
+    D = decimal.Decimal
+    naive = datetime.datetime(2024, 3, 10, 7, 0, 0)
+    return [
+        [0.0, -0.0],
+        [D('2.5'), D('2.50'), D('2.500')],
+        [1, True, 1.0, D(1)],
+        [0, False, 0.0, D(0)],
+        [127, 127.0, D(127)],
+        [65535, 65535.0],
+        [D('-1'), D('-1.0')],
+        [naive, naive.replace(tzinfo=UTC)],
+        [{'a': 1}, {'a': True}, {'a': 1.0}],
+        [[1, 0], [True, False], [1.0, 0.0]],
+        ['', None],
+    ]
+
+
+def confusable_ops(r):
+    """[(group id, op)] - each value in a few encoder positions."""
+    out = []
+    for gi, group in enumerate(confusable_groups()):
+        for v in group:
+            d = to_desc(v)
+            out.append((gi, {'op': 'enc', 'fn': 'encode_table_value',
+                             'v': d}))
+            out.append((gi, {'op': 'enc', 'fn': 'field_table',
+                             'v': {'d': [['k', d]]}}))
+            out.append((gi, {'op': 'enc', 'fn': 'field_array', 'v': [d]}))
+            out.append((gi, {'op': 'marshal', 'frame': {
+                'k': 'header', 'ch': 1, 'body_size': 1,
+                'props': {'headers': {'d': [['k', d]]}}}}))
+    return out
+
+
 # ---------------------------------------------------------------- catalogue
 
 def _try_encode(desc):
@@ -155,6 +193,10 @@ def build_catalogue(check, seed, size):
         elif op['op'] == 'unmarshal':
             twins.append({'op': 'remarshal', 'b': op['b']})
 
+    if check in ('C12', 'C16'):
+        for gi, op in confusable_ops(r):
+            op = dict(op, confusable=gi)
+            cat.append(op)
     marker = 0
     while len(cat) < size:
         marker += 1
@@ -484,6 +526,12 @@ def gen_trace(rng, check, population, tier, cat):
                     continue
             op = r.choice(cat)
             prog.append(op)
+            if 'confusable' in op and r.random() < 0.7:
+                # its equal-but-different siblings belong in the same history
+                sib = [o for o in cat if o.get('confusable') ==
+                       op['confusable']]
+                for _ in range(r.choice((1, 1, 2, 3))):
+                    prog.append(r.choice(sib))
         threads.append(prog)
     tr['threads'] = threads
     est = sum(len(p) for p in threads) * 120
